@@ -96,6 +96,7 @@ type correctableCallState struct {
 	md              *ordering.Metadata
 	data            CorrectableCallData
 	replyChan       <-chan response
+	stopRelaying    chan<- struct{} // server-stream calls: closed when the call is over (see relayResponses)
 	expectedReplies int
 }
 
@@ -107,6 +108,18 @@ func (c RawConfiguration) CorrectableCall(ctx context.Context, d CorrectableCall
 	md := &ordering.Metadata{MessageID: c.getMsgID(), Method: d.Method}
 
 	replyChan := make(chan response, expectedReplies)
+	var replies <-chan response = replyChan
+	var stopRelaying chan struct{}
+	if d.ServerStream {
+		// Servers may stream faster than the replies are consumed: while the quorum function is busy,
+		// after the call has completed, and already now, while the request is still being handed to
+		// the remaining nodes (which can take arbitrarily long when a node's sender is busy). A
+		// receiver goroutine hands a reply over while holding its router mutex, which every new call
+		// on that node needs: it must never block on a full reply channel. The replies are therefore
+		// taken from the reply channel at once and queued, in order, for handleCorrectableCall.
+		stopRelaying = make(chan struct{})
+		replies = relayResponses(replyChan, stopRelaying)
+	}
 	for _, n := range c {
 		msg := d.Message
 		if d.PerNodeArgFn != nil {
@@ -125,7 +138,8 @@ func (c RawConfiguration) CorrectableCall(ctx context.Context, d CorrectableCall
 	go c.handleCorrectableCall(ctx, corr, correctableCallState{
 		md:              md,
 		data:            d,
-		replyChan:       replyChan,
+		replyChan:       replies,
+		stopRelaying:    stopRelaying,
 		expectedReplies: expectedReplies,
 	})
 
@@ -144,18 +158,12 @@ func (c RawConfiguration) handleCorrectableCall(ctx context.Context, corr *Corre
 	)
 
 	if state.data.ServerStream {
-		// Servers may keep streaming while the quorum function is busy and after this call has
-		// completed. A receiver goroutine hands a reply over while holding its router mutex,
-		// which every new call on that node needs: it must never block on a full reply
-		// channel. Until the routers are deleted (deferred calls run in reverse order: delete
-		// the routers, then stop relaying) the replies are therefore taken from the reply
-		// channel at once and queued here, in order, for the loop below.
-		stopRelaying := make(chan struct{})
-		defer close(stopRelaying)
+		// The replies keep being relayed until the routers are deleted (deferred calls run in
+		// reverse order: delete the routers, then stop relaying).
+		defer close(state.stopRelaying)
 		for _, n := range c {
 			defer n.channel.deleteRouter(state.md.MessageID)
 		}
-		state.replyChan = relayResponses(state.replyChan, stopRelaying)
 	}
 
 	if state.expectedReplies == 0 {
